@@ -46,7 +46,7 @@ fn main() {
             let scale: f64 = arg(&args, "--scale").and_then(|s| s.parse().ok()).unwrap_or(1.0);
             let ctx = Ctx { check: check.clone(), tier, seed, shard, nshards, scale };
             if std::env::var("AISMON_NO_WATCHDOG").is_err() {
-                mon::start_watchdog(8);
+                mon::start_watchdog(30);
             }
             let t0 = std::time::Instant::now();
             let mut rep = Report::new();
